@@ -1521,6 +1521,15 @@ BW_MidiSequencer::MidiEvent BW_MidiSequencer::parseEvent(const uint8_t **pptr, c
         evt.subtype = evtype;
         evt.data.insert(evt.data.begin(), data.begin(), data.end());
 
+        // The loop stack code is normally made here from a "loopstart=N" marker and carries the count;
+        // a file can spell the code itself, and then the count byte must be there as well
+        if(evtype == MidiEvent::ST_LOOPSTACK_BEGIN && evt.data.empty())
+        {
+            m_parsingErrorsString += "parseEvent: Can't read Special event - the loop count is missing.\n";
+            evt.isValid = 0;
+            return evt;
+        }
+
 #if 0 /* Print all tempo events */
         if(evt.subtype == MidiEvent::ST_TEMPOCHANGE)
         {
